@@ -168,7 +168,11 @@ class ServerConfig:
         if not self.enable_access_control:
             return None
 
-        if not (self.access_control_allow_list or self.access_control_deny_list):
+        if (
+            not (self.access_control_allow_list or self.access_control_deny_list)
+            and self.access_control_default_allow
+        ):
+            # No lists and default allow: nothing to enforce
             return None
 
         return AccessControlConfig(
